@@ -1380,6 +1380,24 @@ def h_result_ok(ex, st, frame, t, nf, args, dty):
     return alts
 
 
+def h_option_ord_max(ex, st, frame, t, nf, args, dty):
+    """<Option<T> as Ord>::max / min for scalar or newtype T (None is the least element)"""
+    a, b = args[0], args[1]
+    sa, sb = split_enum(ex, st, a, 1), split_enum(ex, st, b, 1)
+    ka = _ord_key(ex, st, ex._get_field(st, a, "Some", 0, "usize"))
+    kb = _ord_key(ex, st, ex._get_field(st, b, "Some", 0, "usize"))
+    is_max = nf.endswith("max")
+    # std: max returns the second argument when equal; for scalars that is indistinguishable
+    b_wins = z3.Or(z3.And(z3.Not(sa), sb), z3.And(sa, sb, z3.UGE(kb, ka))) if is_max else z3.Or(z3.Not(sb), z3.And(sa, sb, z3.ULE(kb, ka)))
+    some_out = z3.Or(sa, sb) if is_max else z3.And(sa, sb)
+    val = z3.If(b_wins, kb, ka)
+    o = Obj(dty)
+    o.discr = Sym(z3.If(some_out, BV64(1), BV64(0)), "isize")
+    pa = ex._get_field(st, a, "Some", 0, "usize")
+    o.fields[("Some", 0)] = Sym(val, pa.ty) if isinstance(pa, Sym) else pa
+    return [(o, None)]
+
+
 def h_panic(ex, st, frame, t, nf, args, dty):
     return "panic"
 
@@ -1397,6 +1415,7 @@ STD_SUMMARIES = [
     (r"^Vec::extend_from_slice$", h_vec_extend),
     (r"^(std|core)::slice::(<impl[^>]*>::)?sort_by$", h_sort_by),
     (r"^<(std::option::)?Option as PartialOrd>::(lt|le|gt|ge)$", h_option_partial_ord),
+    (r"^<(std::option::)?Option as (std::cmp::)?Ord>::(max|min)$", h_option_ord_max),
     (r"(^|::)(panic_fmt|panic|panic_display|panic_str|unwrap_failed|expect_failed|begin_panic|panic_bounds_check|panic_nounwind|panic_explicit|unreachable_display|assert_failed)$", h_panic),
     (r"^(std::option::)?Option::(as_ref|as_mut)$", h_option_as_ref),
     (r"^(std::option::)?Option::take$", h_option_take),
